@@ -8,4 +8,9 @@ export GOCACHE="$V/.cache/go-build"
 mkdir -p "$V/bin" "$V/.cache" "$V/evidence" "$V/replays"
 ( cd "$V/mc" && cp /repo/go.sum go.sum && go vet ./engine >/dev/null 2>&1 || true; go build -o "$V/bin/check" ./cmd/check )
 ( cd "$V/mc" && go test -count=1 ./engine )
+# C20: instrumenter, instrumented explorer and the -race pass (warms the race-enabled standard library)
+OV="$V/mc/overlay"; rm -rf "$OV"; mkdir -p "$OV"
+( cd "$V/mc" && go build -o "$V/bin/instr" ./cmd/instr && "$V/bin/instr" /repo "$OV" "$V/mc/verifrt_src" \
+  && go build -tags verif -overlay "$OV/overlay.json" -o "$V/bin/c20" ./cmd/c20 \
+  && go build -race -overlay "$OV/plain.json" -o "$V/bin/c20race" ./cmd/c20race )
 echo setup ok
